@@ -55,6 +55,9 @@ def run(ctx):
     ctx.do(rule_scans_complete)
     ctx.do(rule_shortcut_values_are_entry_names)
     ctx.do(rule_layout_classified_by_content)
+    ctx.do(rule_one_stat_for_both_lists)
+    from . import C11 as _C11b
+    ctx.do_as(_C11b.rule_id_directory_syntax, {"C11.id-directory-syntax": "C12.optimiser-table"})
     from . import C11 as _C11
     ctx.do(_C11.rule_memory_query_scans_everything, rule_id="C12.scans-complete")
     from .pitfalls import rule_groupby_sorted, rule_single_use_iterators
@@ -884,3 +887,21 @@ def _eval_filter_test(e, fv, smp, env=None):
         vals = [_eval_filter_test(e.args[0].elt, fv, smp, dict(env, **{g_.target.id: x})) for x in seq]
         return all(vals) if call_simple_name(e) == "all" else any(vals)
     raise AnalysisError("exemption test of the optimiser not understood: %s" % short(e, 80))
+
+
+def rule_one_stat_for_both_lists(ctx, R="C12.optimiser-table"):
+    """_get_matching_dir_entries classifies directory entries (is it a directory / a regular file?) on two paths: names taken
+    from a whitelist, and names listed from the directory for a blacklist.  Both ask the same question with the same call: with
+    os.lstat on one path and os.stat on the other, a symbolic link is a directory for queries without a type / id filter and
+    nothing for queries with one -- the shortcut changes the result."""
+    run = ctx.run
+    prog = ctx.prog
+    fi = prog.func(FS + "::_get_matching_dir_entries")
+    stats = sorted({norm(c.func) for c in body_walk(fi.node) if isinstance(c, ast.Call) and norm(c.func) in ("os.stat", "os.lstat", "os.path.isdir", "os.path.isfile", "os.path.islink")})
+    n_ = len([c for c in body_walk(fi.node) if isinstance(c, ast.Call) and norm(c.func) in ("os.stat", "os.lstat")])
+    if n_ < 2:
+        raise AnalysisError("_get_matching_dir_entries: fewer than 2 stat calls (%d)" % n_)
+    run.check(len(stats) == 1, R, key(fi.module.relpath, fi.qualname, "one-stat-for-both-lists"),
+              "the white-list and the black-list path classify entries with different calls (%s): a symbolic link is seen by one "
+              "and not by the other, so adding a type / id filter removes stored objects from the answer" % ", ".join(stats),
+              file=fi.module.relpath, line=fi.node.lineno, function=fi.qualname, expected="the same call on both paths", found=stats)
